@@ -584,7 +584,7 @@ pub fn plan(tier: Tier) -> Plan {
     let mut p = Plan::new("C15", "model_checking");
     let thorough = tier.thorough();
     let scan = shared_state_scan();
-    p.rule = "(1) for every accepted sequence of the scope (subsets of U_ab3 with <= 4 keys quick / all thorough, x value patterns; fan-out families) the bytes through all 23 front ends (17 entry points + 6 usage variants: builders kept in use after rejected calls, several bulk calls on a populated builder), Builder::memory, a BufWriter, a 3-bytes-per-call sink and Map::from_iter are identical, and the raw front ends agree under the tiny cache geometries 1x1, 2x2, 3x3 (where evictions make the bytes depend on cache behaviour), also when repeated; the same for samples of the shipped corpora (400..10000 keys), where the DEFAULT cache is under pressure; the same for a long-tail family (10..64 keys of 66..502 bytes sharing long tails); (1b) bulk-load size ladder: 1 .. 400004 (thorough 3.3 million) generated items through every bulk entry point (iterators with exact size hints, streams, from_iter) against single inserts; (2) EVERY call-level interleaving (multiset permutations of the API calls new/insert.../finish) of every ordered pair (thorough: also triples of shorter jobs) of 6 builder jobs of different kinds and geometries driven from one thread: each builder must produce the bytes of its solo run (each pair runs on a fresh thread; pairs of jobs with wide nodes included); (2b) builders MOVED between fresh OS threads: a job started on thread A (every split point), handed to thread B, which finishes it and then builds another job / drops it and builds / builds first and then finishes it - every finished builder must produce the bytes of its solo run; (3) the whole-scope digest computed twice on one thread, on 8 free-running OS threads and in 4 child processes (std RandomState differs per process) must be equal - a repetition over an uncontrolled seed, reported as such. non-trivial = interleavings with at least one context switch".into();
+    p.rule = "(1) for every accepted sequence of the scope (subsets of U_ab3 with <= 4 keys quick / all thorough, x value patterns; fan-out families) the bytes through all 26 front ends (17 entry points + 6 usage variants: builders kept in use after rejected calls, several bulk calls on a populated builder + the 3 memory() constructors with into_fst/into_map/into_set), Builder::memory, a BufWriter, a 3-bytes-per-call sink and Map::from_iter are identical, and the raw front ends agree under the tiny cache geometries 1x1, 2x2, 3x3 (where evictions make the bytes depend on cache behaviour), also when repeated; the same for samples of the shipped corpora (400..10000 keys), where the DEFAULT cache is under pressure; the same for a long-tail family (10..64 keys of 66..502 bytes sharing long tails); (1b) bulk-load size ladder: 1 .. 400004 (thorough 3.3 million) generated items through every bulk entry point (iterators with exact size hints, streams, from_iter) against single inserts; (2) EVERY call-level interleaving (multiset permutations of the API calls new/insert.../finish) of every ordered pair (thorough: also triples of shorter jobs) of 6 builder jobs of different kinds and geometries driven from one thread: each builder must produce the bytes of its solo run (each pair runs on a fresh thread; pairs of jobs with wide nodes included); (2b) builders MOVED between fresh OS threads: a job started on thread A (every split point), handed to thread B, which finishes it and then builds another job / drops it and builds / builds first and then finishes it - every finished builder must produce the bytes of its solo run; (3) the whole-scope digest computed twice on one thread, on 8 free-running OS threads and in 4 child processes (std RandomState differs per process) must be equal - a repetition over an uncontrolled seed, reported as such. non-trivial = interleavings with at least one context switch".into();
     p.assumptions = vec![
         format!("the library has no synchronisation operation and no shared mutable state, so thread interleavings are one Mazurkiewicz trace and a controlled scheduler (loom/shuttle) would have no scheduling point to branch on; scan of /repo/src for static mut/thread_local/lazy_static/OnceCell/OnceLock/Atomic/Mutex/RwLock/RandomState/DefaultHasher/unsafe outside hook items found: {}", if scan.is_empty() { "nothing".to_string() } else { scan.join("; ") }),
         "call-level interleavings of builders on one thread expose any instance-crossing (global or thread-local) state".into(),
